@@ -88,3 +88,34 @@ def run(ctx):
                    "the segment's edges are carried in a set keyed by (src, rel, dst) (%s): parallel relationships collapse into one, while the "
                    "transactional path keeps them" % (bad or "no edge vector at all"), b.file)
     ctx.floor("C30.3", "segment builders", n3, 2)
+
+    # ---- clause 4: internal ids are looked up by key ----------------------------------------------------------------
+    # The loader hands out internal ids in insertion order and remembers them in `external_to_internal`, a BTreeMap ordered by *external* id.
+    # Pairing nodes with the map positionally (`zip(map.values())`, iteration order) is only right when the input happens to be sorted by
+    # external id; otherwise properties / edges are attached to other nodes than the transactional load would attach them to.
+    ctx.rule("C30.4", "the bulk loader's external -> internal id map is only accessed by key (index / get / insert / contains_key): never iterated or zipped positionally")
+    KEYED = ("index", "get", "insert", "contains_key", "len", "is_empty", "entry", "get_mut")
+    n4 = 0
+    for i, b in sorted(F.bodies.items()):
+        if not i.startswith("nervusdb_storage::bulkload::") or "::tests::" in i:
+            continue
+        k = 0
+        for c in b.calls():
+            if not c.args:
+                continue
+            l = op_local(c.args[0])
+            if l is None:
+                continue
+            r = peel_refs(b, l)
+            if "BTreeMap<u64, u32" not in b.local_ty(r) or b.local_ty(r).startswith("&") and "BTreeMap<u64, u32" not in b.local_ty(r):
+                continue
+            short = c.name.split("::")[-1]
+            if short in ("branch", "from_residual", "deref", "clone", "drop"):
+                continue
+            n4 += 1
+            ctx.instance("C30.4", "%s: external_to_internal.%s (%s)" % (i.split("::")[-1], short, c.loc()))
+            ctx.oblige(short in KEYED, "C30.4", "%s:id-map.%s#%d" % (b.root or i, short, k),
+                       "the external -> internal id map is traversed (`%s`) instead of looked up by key: its order is the order of external ids, not the "
+                       "order in which internal ids were handed out, so nodes given in unsorted order get each other's properties" % short, c.loc())
+            k += 1
+    ctx.floor("C30.4", "accesses to the id map in the bulk loader", n4, 5)
